@@ -38,7 +38,9 @@ LEVEL_NOTE = ("Trusted: the snapshot logic in this file (reads of other threads'
               "A run costs 3-8 s, so the number of fault sequences explored is small; C25 and C26 explore replication "
               "and the repair constraints densely and deterministically.")
 RULE = ("case = DCOP + k + fault sequence + perturbation; non-trivial = at least one event that orphaned a computation "
-        "with >=2 candidate hosts and whose repair completed; distinct by sha1(case)")
+        "with >=2 candidate hosts and whose repair completed; for the directory target (label dirsim): a delivery "
+        "that overtook an older enabled one; for the bookkeeping target (label mgtsim): a second or later event with "
+        "orphans and candidates; distinct by sha1(case). The label histogram gives the split between the targets")
 ASSUMPTIONS = ["thread mode", "events whose orphaned computations had lost every replica holder before the event "
                "(insufficient re-replication after an earlier event) are counted, not asserted"]
 BUDGET = {"quick": {"workers": 8, "examples": 5, "seconds": 50, "shrink_seconds": 30},
